@@ -80,7 +80,9 @@ theorem cbStep_eioDisconnect (cfg : Cfg) (c : Cli) (r : Str) :
 theorem cbOuts_ackOuts (cb : Cb) (data : Option J) :
     cbOuts (ackOuts cb data) = match data with | some (.arr args) => [(cb, args)] | _ => [] := by
   unfold ackOuts
-  split <;> simp [cbOuts_cons, cbOf]
+  split
+  · split <;> simp [cbOuts_cons, cbOf]
+  · simp [cbOuts_cons, cbOf]
 
 theorem cbStep_handleAck (c : Cli) (ns : Option Ns) (id : Option Nat) (data : Option J) :
     CbStep c (handleAck c ns id data).1 (handleAck c ns id data).2 := by
